@@ -452,7 +452,7 @@ def load(modname, patches=None, deps=None, builtins_extra=None, symbolic=True, s
         saved[k] = sys.modules.get(k)
         sys.modules[k] = v
     try:
-        exec(compile(tree, path, "exec"), m.__dict__)
+        exec(compile(tree, path, "exec", dont_inherit=True), m.__dict__)
     finally:
         for k, v in saved.items():
             if v is None:
